@@ -48,6 +48,7 @@ def run(model: Model, rep: Report) -> None:
     _escapes(model, rep, cg, reach)
     _recursion(model, rep, cg, reach)
     _amplification(model, rep, reach)
+    _unbounded_walker_callers(model, rep, reach)
     _lenient_accessors(model, rep)
     _key_length_guard(model, rep)
 
@@ -125,6 +126,7 @@ def _strict_test(model: Model):
 
 # --------------------------------------------------------------------------- R2
 VECTOR_ALIASES = ("Matrix", "Rect", "Point")
+_VECTOR_ADDED: Set[Tuple[str, str]] = set()
 
 
 def _kind_at(f: FuncInfo, dtf, a: ast.AST, call: ast.AST) -> Optional[str]:
@@ -156,6 +158,12 @@ def _vector_params(model: Model, cg: CallGraph, reach: Set[str]) -> Dict[str, Di
     operations on document values like anywhere else.  Iterated: begin_figure(bbox, matrix) hands both on."""
     from ..doctaint import PARAM_KIND, DocTaint
 
+    # PARAM_KIND is a module-level table: what an earlier model in the same process (a self-test variant) added is taken back
+    for (q0, p0) in list(_VECTOR_ADDED):
+        PARAM_KIND.get(q0, {}).pop(p0, None)
+        if q0 in PARAM_KIND and not PARAM_KIND[q0]:
+            del PARAM_KIND[q0]
+    _VECTOR_ADDED.clear()
     added: Dict[str, Dict[str, str]] = {}
     for _ in range(5):
         changed = False
@@ -193,6 +201,7 @@ def _vector_params(model: Model, cg: CallGraph, reach: Set[str]) -> Dict[str, Di
                         k = _kind_at(f, dtf, a, c)
                         if k in ("LIST", "RAW", "VEC") and PARAM_KIND.get(g.qualname, {}).get(p_.arg) != k:
                             PARAM_KIND.setdefault(g.qualname, {})[p_.arg] = k
+                            _VECTOR_ADDED.add((g.qualname, p_.arg))
                             added.setdefault(g.qualname, {})[p_.arg] = f"{k} from {q.split('.')[-1]}: {ast.unparse(a)[:50]}"
                             changed = True
         if not changed:
@@ -475,6 +484,33 @@ def lenient_accessors_rule(model: Model, rep: Report, rid: str) -> None:
                     continue
             raw = [unparse(e) for e in elts if not (isinstance(e, ast.Name) and e.id in conv_locals)]
             r5.check(not raw, site(f, ret), q, unparse(ret)[:80], why=f"component(s) {raw} are not converted values" + (": a raw operand (for example the string `(20)`, which float() accepts) flows into matrix arithmetic and raises TypeError there" if any(x in params for x in raw) else ""))
+
+
+RESOLVE_ALL_CALLERS = {
+    "pdfminer.pdffont.PDFFont.__init__": "the /Widths array of a simple font (recorded with the walker's own finding)",
+    "pdfminer.pdffont.PDFFont._parse_bbox": "the /FontBBox array",
+    "pdfminer.pdftypes.resolve_all": "the walker itself",
+}
+
+
+def _unbounded_walker_callers(model: Model, rep: Report, reach: Set[str]) -> None:
+    """resolve_all follows references through lists and dictionaries without a visited set or a depth bound: that is a
+    recorded finding (C13-R3).  It stays a finding of *two* entry points only as long as nobody else feeds it: every further
+    caller hands one more document value - which may contain a reference to itself - to the unbounded recursion."""
+    r = rep.rule("C13-R10", "WHOCALLS", "the unbounded recursive walker resolve_all is called from the reviewed sites only (a new caller is a new way to exhaust the recursion limit with a self-referencing value)", 2)
+    n = 0
+    for q, f in sorted(model.funcs.items()):
+        if isinstance(f.node, ast.Lambda) or not q.startswith("pdfminer."):
+            continue
+        for c in walk_no_nested(f.node):
+            if isinstance(c, ast.Call) and (dotted(c.func) or "").split(".")[-1] == "resolve_all":
+                n += 1
+                if q in RESOLVE_ALL_CALLERS:
+                    r.ok(site(f, c), q, unparse(c)[:80], note=RESOLVE_ALL_CALLERS[q])
+                else:
+                    r.violation(site(f, c), q, unparse(c)[:80], "a further document value is handed to resolve_all, which recurses through lists, dictionaries and references with no visited set and no depth bound: an array that contains a reference to itself (7 0 obj [7 0 R]) or is nested a few thousand deep raises RecursionError here")
+    if n < 2:
+        raise AnchorMissing("calls of resolve_all not found")
 
 
 def _key_length_guard(model: Model, rep: Report) -> None:
